@@ -251,6 +251,7 @@ FAMILIES["C06"] = dict(
 FAMILIES["C19"] = dict(
     famtag="C19",
     trace_module="TraceDate",
+    trace_by_ev={"Eval": "TraceEval"},
     g=[G("MC_C19", "MC_C19_quick.cfg", "MC_C19_thorough.cfg")],
     v=[dict(profile="dates", n={"quick": 40000, "thorough": 3400000}), dict(profile="clock", n={"quick": 300, "thorough": 3000})],
     rule="a case is one $fromMillis / $toMillis call (instant, picture, offset); non-trivial when the specification pins the rendered fields or the parsed instant; distinct by arguments",
@@ -279,3 +280,7 @@ for _p in ("C01", "C02", "C03", "C12", "C13", "C14", "C15", "C16", "C17", "C18",
     if _os.path.exists(_os.path.join(_os.path.dirname(_os.path.dirname(_os.path.abspath(__file__))), _f)):
         FAMILIES[_p].setdefault("files", [])
         FAMILIES[_p]["files"] = list(FAMILIES[_p]["files"]) + [_f]
+
+# families whose TLC-enumerated programs all compile on the unchanged tree: a parse error on one of them is a violation
+for _p in ("C01", "C02", "C13", "C14", "C17", "C18"):
+    FAMILIES[_p]["compile_must_succeed"] = True
